@@ -91,11 +91,11 @@ fn main() {
             c39::run(&mut ctx);
         }
         "C31" => {
-            ctx.rule = "simulator half: slice programs (batch+count snapshot of the same stream, unordered batch, use::state accumulator, use::state_null carried stream, snapshot of a keyed monotone singleton) emitting every slice's raw observation; all schedules (CompiledSim::exhaustive) for 0..=4 input items (thorough 5), proptest inputs of 5-10 items with sampled decision tapes beyond. Non-trivial: >=3 slice executions with >=2 non-empty batches in some explored schedule. Distinct: hash of (program, input, tape).".into();
+            ctx.rule = "simulator half: slice programs (batch+count snapshot of the same stream, unordered batch, use::state accumulator, use::state_null carried stream, snapshot of a keyed monotone singleton) emitting every slice's raw observation; all schedules (CompiledSim::exhaustive) for 0..=5 input items (thorough 6), proptest inputs of 5-10 items with sampled decision tapes beyond. Non-trivial: >=3 slice executions with >=2 non-empty batches in some explored schedule. Distinct: hash of (program, input, tape).".into();
             c31::run(&mut ctx);
         }
         "C34" => {
-            ctx.rule = "simulator half: the tutorial keyed counter (atomic) and a single atomic counter; proptest scripts of 1-5 phases (writes to 2 keys, wait for all outstanding acknowledgements or not, reads); scripts of <=4 operations under CompiledSim::exhaustive, <=12 operations with sampled tapes; oracle: a read issued after an awaited acknowledgement answers >= the acknowledged writes of its key and <= all writes. Non-trivial: a read with >=1 acknowledged write while further writes of the key exist, or two such reads. The non-atomic tutorial variant and a non-atomic twin are negative controls.".into();
+            ctx.rule = "simulator half: the tutorial keyed counter (atomic) and a single atomic counter; proptest scripts of 1-5 phases (writes to 2 keys, wait for all outstanding acknowledgements or not, reads); scripts of <=4 (thorough 5) operations under CompiledSim::exhaustive, <=12 operations with sampled tapes; oracle: a read issued after an awaited acknowledgement answers >= the acknowledged writes of its key and <= all writes. Non-trivial: a read with >=1 acknowledged write while further writes of the key exist, or two such reads. The non-atomic tutorial variant and a non-atomic twin are negative controls.".into();
             c34::run(&mut ctx);
         }
         "C40" => {
